@@ -8,6 +8,7 @@ import Driver.Cap
 import Driver.Promise
 import Driver.Server
 import Driver.Rpc
+import Driver.Gen15
 /-! `modeld`: one operation per line on stdin, one canonical result per line on stdout. -/
 open Driver
 
@@ -22,6 +23,7 @@ def dispatch (line : String) : String :=
   | "promise" :: rest => Driver.Promise.run rest
   | "server" :: rest => Driver.Server.run rest
   | "rpc" :: rest => Driver.Rpc.run rest
+  | "gen15" :: rest => Driver.Gen15.run rest
   | "build" :: rest => Driver.Read.runBuild rest
   | ["case", _] => "case"
   | _ => "bad-op"
